@@ -261,7 +261,7 @@ theorem linkDAV_star (h : Heap) (lang : Lang) (p e : Nat) (l : List Act) (hl : l
   | fr =>
     simp only at hl
     split at hl
-    · cases hl
+    · cases hl; simp only [List.mem_cons, List.not_mem_nil, or_false] at ha; subst ha; simp [Star]
     · split at hl
       · cases hl; simp only [List.mem_cons, List.not_mem_nil, or_false] at ha; subst ha; simp [Star]
       · split at hl
@@ -291,7 +291,10 @@ theorem linkDAV_targets (h : Heap) (lang : Lang) (p e : Nat) (l : List Act) (hl 
   | fr =>
     simp only at hl hd
     split at hl
-    · cases hl
+    · next hq =>
+      exfalso
+      simp only [Bool.and_eq_true, decide_eq_true_eq] at hq
+      simp [hq.1, hq.2, isPP] at hd
     · split at hl
       · cases hl; simp [pengTargets, pengTarget]
       · split at hl
@@ -304,31 +307,28 @@ theorem linkDAV_targets (h : Heap) (lang : Lang) (p e : Nat) (l : List Act) (hl 
           · exact hn2.2 hD
           · exact hn3 hP
 
-/-- the number written by `link_DAV_properties(e)`: plural for the English determiner `no` -/
-def davNo (h : Heap) (lang : Lang) (e : Nat) : Bool := lang = .en && h.kind e = .D && h.lemmaOf e = s "no"
+/-- the number written by `link_DAV_properties(e)`: plural for English `no` / French `quelques` -/
+abbrev davNo (h : Heap) (lang : Lang) (e : Nat) : Bool := pluralMaker h lang e
 
 theorem linkDAV_nWrites (h : Heap) (lang : Lang) (p e : Nat) (l : List Act) (hl : linkDAV h lang p e = some l) :
     nWrites l = if davNo h lang e then [.s ['p']] else [] := by
   unfold linkDAV at hl
-  unfold davNo
+  unfold davNo pluralMaker
   cases lang with
   | en =>
-    simp only at hl
+    simp only at hl ⊢
     split at hl
-    · next hno => cases hl; simp only [Bool.and_eq_true, decide_eq_true_eq] at hno; simp [nWrites, nWrite, hno.1, hno.2]
+    · next hno => cases hl; simp [nWrites, nWrite, hno]
     · next hno =>
-      have : (decide (Typ.Lang.en = Typ.Lang.en) && decide (h.kind e = Kind.D) && decide (h.lemmaOf e = s "no")) = false := by
-        simpa using hno
-      rw [this]
+      rw [if_neg hno]
       split at hl <;> (cases hl; simp [nWrites, nWrite])
   | fr =>
-    simp only at hl
-    have : (decide (Typ.Lang.fr = Typ.Lang.en) && decide (h.kind e = Kind.D) && decide (h.lemmaOf e = s "no")) = false := by
-      simp
-    rw [this]
+    simp only at hl ⊢
     split at hl
-    · cases hl
-    · split at hl
+    · next hq => cases hl; simp [nWrites, nWrite, hq]
+    · next hq =>
+      rw [if_neg hq]
+      split at hl
       · cases hl; simp [nWrites, nWrite]
       · split at hl <;> (cases hl; simp [nWrites, nWrite])
 
@@ -364,9 +364,7 @@ def relActs (h : Heap) (p : Nat) : List Act :=
       match h.getFromPath sp [([.VP], false), ([.V], false)] with
       | none => []
       | some v =>
-        match h.subject sp with
-        | none => [.crash .attributeError]
-        | some subject => linkSubjObjSubordinate h (h.node p).lang p pro v subject
+        linkSubjObjSubordinate h (h.node p).lang p pro v (subjectAttr h sp)
 
 theorem planNP_eq (h : Heap) (p : Nat) :
     planNP h p = (match (h.kids p)[npHeadIndex h p]? with
@@ -466,10 +464,6 @@ theorem childPlan_targets (h : Heap) (p hi hd : Nat) (ei : Nat × Nat) (l : List
         · rw [if_neg hap] at hd'
           simp at hd'
 
-/-- the English determiner `no` -/
-theorem davNo_eq (h : Heap) (lang : Lang) (e : Nat) :
-    davNo h lang e = (decide (lang = Typ.Lang.en) && decide (h.kind e = Kind.D) && decide (h.lemmaOf e = s "no")) := rfl
-
 theorem nWrites_AP (h : Heap) (lang : Lang) (p : Nat) : ∀ (ks : List Nat),
     (∀ el ∈ ks, ∃ l1, linkDAV h lang p el = some l1) →
     List.flatMap (fun q : Plan => nWrites (q.getD [])) (ks.map (fun el => linkDAV h lang p el)) =
@@ -491,7 +485,6 @@ theorem childPlan_nWrites (h : Heap) (p hi hd : Nat) (ei : Nat × Nat) (l : List
   unfold childPlan at hl
   unfold numberWrites
   simp only [] at hl ⊢
-  simp only [← davNo_eq]
   by_cases hi' : i = hi
   · rw [if_pos hi'] at hl ⊢
     cases hl
@@ -523,8 +516,11 @@ theorem childPlan_nWrites (h : Heap) (p hi hd : Nat) (ei : Nat × Nat) (l : List
       · rw [if_neg hdav] at hl
         have hnotD : h.kind e ≠ .D := by
           intro hk; apply hdav; simp [Heap.isA, hk]
+        have hnotA : h.kind e ≠ .A := by
+          intro hk; apply hdav; simp [Heap.isA, hk]
         have hno2 : davNo h (h.node p).lang e = false := by
-          simp [davNo, hnotD]
+          unfold davNo pluralMaker
+          cases (h.node p).lang <;> simp [hnotD, hnotA]
         simp only [hno2, Bool.false_eq_true, if_false]
         by_cases hcp : h.kind e = .CP
         · rw [if_pos hcp] at hl
@@ -553,112 +549,115 @@ theorem childPlan_nWrites (h : Heap) (p hi hd : Nat) (ei : Nat × Nat) (l : List
 theorem relActs_star (h : Heap) (p : Nat) : ∀ a ∈ relActs h p, StarP p a := by
   intro a ha
   unfold relActs at ha
-  split at ha
-  · simp at ha
-  · split at ha
-    · simp only [List.mem_cons, List.not_mem_nil, or_false] at ha; subst ha; simp [StarP, Star, nWrite]
-    · split at ha
-      · simp at ha
-      · split at ha
-        · simp only [List.mem_cons, List.not_mem_nil, or_false] at ha; subst ha; simp [StarP, Star, nWrite]
-        · next pro _ sp _ v _ subject _ =>
-          unfold linkSubjObjSubordinate at ha
-          cases hlang : (h.node p).lang with
-          | en =>
-            simp only [hlang] at ha
-            split at ha
-            · simp only [List.cons_append, List.nil_append, List.mem_cons] at ha
-              rcases ha with rfl | ha
-              · simp [StarP, Star, nWrite]
-              · exact linkAttributes_star _ _ _ _ _ _ a ha
-            · simp at ha
-          | fr =>
-            simp only [hlang] at ha
-            split at ha
-            · simp only [List.mem_append, List.mem_cons, List.not_mem_nil, or_false] at ha
-              rcases ha with (rfl | ha) | ha
-              · simp [StarP, Star, nWrite]
-              · split at ha
-                · simp only [List.mem_cons, List.not_mem_nil, or_false] at ha; subst ha; simp [StarP, Star, nWrite]
-                · simp at ha
-              · exact linkAttributes_star _ _ _ _ _ _ a ha
+  cases hpro : h.getFromPath p [([.S, .SP], false), ([.Pro], false)] with
+  | none => rw [hpro] at ha; simp at ha
+  | some pro =>
+    rw [hpro] at ha
+    simp only [] at ha
+    cases hsp : h.parentOf pro with
+    | none =>
+      rw [hsp] at ha
+      simp only [List.mem_cons, List.not_mem_nil, or_false] at ha; subst ha; simp [StarP, Star, nWrite]
+    | some sp =>
+      rw [hsp] at ha
+      simp only [] at ha
+      cases hv : h.getFromPath sp [([.VP], false), ([.V], false)] with
+      | none => rw [hv] at ha; simp at ha
+      | some v =>
+        rw [hv] at ha
+        simp only [] at ha
+        generalize subjectAttr h sp = subject at ha
+        unfold linkSubjObjSubordinate at ha
+        cases hlang : (h.node p).lang with
+        | en =>
+          simp only [hlang] at ha
+          split at ha
+          · simp only [List.cons_append, List.nil_append, List.mem_cons] at ha
+            rcases ha with rfl | ha
+            · simp [StarP, Star, nWrite]
+            · exact linkAttributes_star _ _ _ _ _ _ a ha
+          · simp at ha
+        | fr =>
+          simp only [hlang] at ha
+          split at ha
+          · simp only [List.mem_append, List.mem_cons, List.not_mem_nil, or_false] at ha
+            rcases ha with (rfl | ha) | ha
+            · simp [StarP, Star, nWrite]
             · split at ha
               · simp only [List.mem_cons, List.not_mem_nil, or_false] at ha; subst ha; simp [StarP, Star, nWrite]
-              · split at ha
-                · simp only [List.mem_append, List.mem_cons, List.not_mem_nil, or_false] at ha
-                  rcases ha with rfl | ha
-                  · simp [StarP, Star, nWrite]
+              · simp at ha
+            · exact linkAttributes_star _ _ _ _ _ _ a ha
+          · split at ha
+            · simp only [List.mem_cons, List.not_mem_nil, or_false] at ha; subst ha; simp [StarP, Star, nWrite]
+            · split at ha
+              · simp only [List.mem_append, List.mem_cons, List.not_mem_nil, or_false] at ha
+                rcases ha with rfl | ha
+                · simp [StarP, Star, nWrite]
+                · split at ha
                   · split at ha
+                    · simp only [List.mem_cons, List.not_mem_nil, or_false] at ha; subst ha; simp [StarP, Star, nWrite]
                     · split at ha
-                      · simp only [List.mem_cons, List.not_mem_nil, or_false] at ha; subst ha; simp [StarP, Star, nWrite]
+                      · simp at ha
                       · split at ha
-                        · simp at ha
                         · split at ha
-                          · split at ha
-                            · simp only [List.mem_cons, List.not_mem_nil, or_false] at ha; subst ha; simp [StarP, Star, nWrite]
-                            · simp at ha
+                          · simp only [List.mem_cons, List.not_mem_nil, or_false] at ha; subst ha; simp [StarP, Star, nWrite]
                           · simp at ha
-                    · simp at ha
-                · simp at ha
+                        · simp at ha
+                  · simp at ha
+              · simp at ha
 
 theorem relActs_targets (h : Heap) (p : Nat) : ∀ d ∈ npRelDeps h p, d ∈ pengTargets (relActs h p) := by
   intro d hd
   unfold npRelDeps npRel at hd
   unfold relActs
-  split at hd
-  · simp at hd
-  · next x pro sp v subject heq =>
-    -- decompose the successful look-ups
-    split at heq
-    · simp at heq
-    · next pro' hpro =>
-      split at heq
-      · simp at heq
-      · next sp' hsp =>
-        split at heq
-        · simp at heq
-        · next v' hv =>
-          split at heq
-          · simp at heq
-          · next subject' hsub =>
-            simp only [Option.some.injEq, Prod.mk.injEq] at heq
-            obtain ⟨rfl, rfl, rfl, rfl⟩ := heq
-            simp only [hpro, hsp, hv, hsub]
-            unfold linkSubjObjSubordinate
-            cases hlang : (h.node p).lang with
-            | en =>
-              simp only [hlang] at hd ⊢
+  cases hpro : h.getFromPath p [([.S, .SP], false), ([.Pro], false)] with
+  | none => rw [hpro] at hd; simp at hd
+  | some pro =>
+    rw [hpro] at hd
+    simp only [] at hd ⊢
+    cases hsp : h.parentOf pro with
+    | none => rw [hsp] at hd; simp at hd
+    | some sp =>
+      rw [hsp] at hd
+      simp only [] at hd ⊢
+      cases hv : h.getFromPath sp [([.VP], false), ([.V], false)] with
+      | none => rw [hv] at hd; simp at hd
+      | some v =>
+        rw [hv] at hd
+        simp only [] at hd ⊢
+        generalize subjectAttr h sp = subject at hd ⊢
+        unfold linkSubjObjSubordinate
+        cases hlang : (h.node p).lang with
+        | en =>
+          simp only [hlang] at hd ⊢
+          split at hd
+          · next hrel =>
+            simp only [List.mem_cons, List.not_mem_nil, or_false] at hd
+            subst hd
+            rw [if_pos hrel]
+            simp [pengTargets, pengTarget]
+          · simp at hd
+        | fr =>
+          simp only [hlang] at hd ⊢
+          split at hd
+          · next hq =>
+            simp only [hq, if_true, pengTargets_append, List.mem_append]
+            simp only [List.mem_append, List.mem_cons, List.not_mem_nil, or_false] at hd
+            rcases hd with (rfl | hd) | hd
+            · left; left; simp [pengTargets, pengTarget]
+            · left; right
               split at hd
-              · next hrel =>
-                simp only [List.mem_cons, List.not_mem_nil, or_false] at hd
-                subst hd
-                have hrel1 : relProsEn.contains (h.lemmaOf pro') = true := by
-                  simp only [Bool.and_eq_true] at hrel
-                  exact hrel.1
-                rw [if_pos hrel1]
-                simp [pengTargets, pengTarget]
+              · next hl => simp only [List.mem_cons, List.not_mem_nil, or_false] at hd; subst hd; simp [hl, pengTargets, pengTarget]
               · simp at hd
-            | fr =>
-              simp only [hlang] at hd ⊢
-              split at hd
-              · next hq =>
-                simp only [hq, if_true, pengTargets_append, List.mem_append]
-                simp only [List.mem_append, List.mem_cons, List.not_mem_nil, or_false] at hd
-                rcases hd with (rfl | hd) | hd
-                · left; left; simp [pengTargets, pengTarget]
-                · left; right
-                  split at hd
-                  · next hl => simp only [List.mem_cons, List.not_mem_nil, or_false] at hd; subst hd; simp [hl, pengTargets, pengTarget]
-                  · simp at hd
-                · right; exact linkAttributes_targets _ _ _ _ _ _ d hd
-              · next hq =>
-                simp only [hq]
-                split at hd
-                · next hdq =>
-                  simp only [List.mem_cons, List.not_mem_nil, or_false] at hd
-                  subst hd
-                  simp [hdq, pengTargets, pengTarget]
-                · simp at hd
+            · right; exact linkAttributes_targets _ _ _ _ _ _ d hd
+          · next hq =>
+            simp only [hq]
+            split at hd
+            · next hdq =>
+              simp only [List.mem_cons, List.not_mem_nil, or_false] at hd
+              subst hd
+              simp [hdq, pengTargets, pengTarget]
+            · simp at hd
 
 /-! ### the whole NP branch -/
 
